@@ -524,9 +524,24 @@ func (tkn *Tokenizer) Error(err string) {
 	}
 }
 
+// rescan is what scanToken returns after it has installed the tokenizer of a MySQL-specific comment:
+// there is no token yet, Scan has to start over (it is not a token type: those are >= 0).
+const rescan = -1
+
 // Scan scans the tokenizer for the next token and returns
 // the token type and an optional value.
 func (tkn *Tokenizer) Scan() (int, []byte) {
+	for {
+		// a loop, not a recursive call: a statement may hold any number of MySQL-specific
+		// comments without a token in them (/*!*/ /*!50000 */ ...) one after the other
+		if typ, val := tkn.scanToken(); typ != rescan {
+			return typ, val
+		}
+	}
+}
+
+// scanToken is one round of Scan.
+func (tkn *Tokenizer) scanToken() (int, []byte) {
 	if tkn.specialComment != nil {
 		// Enter specialComment scan mode.
 		// for scanning such kind of comment: /*! MySQL-specific code */
@@ -999,7 +1014,7 @@ func (tkn *Tokenizer) scanMySQLSpecificComment() (int, []byte) {
 	}
 	_, sql := ExtractMysqlComment(buffer.String())
 	tkn.specialComment = NewStringTokenizer(sql)
-	return tkn.Scan()
+	return rescan, nil
 }
 
 func (tkn *Tokenizer) consumeNext(buffer *bytes2.Buffer) {
